@@ -3381,8 +3381,9 @@ def _desugared_body(fnode):
     read of v becomes b''.join(v_parts).  Same bytes, same TypeError for a
     non-bytes operand."""
     key = id(fnode)
-    if key in _DESUGARED:
-        return _DESUGARED[key]
+    hit = _DESUGARED.get(key)
+    if hit is not None and hit[0] is fnode:
+        return hit[1]
     body = fnode.body
     params = set()
     a = fnode.args
@@ -3422,7 +3423,7 @@ def _desugared_body(fnode):
              stores.get(nm, 0) == 1 + augs[nm]}
     del in_loop_inits
     if not names:
-        _DESUGARED[key] = body
+        _DESUGARED[key] = (fnode, body)
         return body
     import copy
 
@@ -3472,7 +3473,7 @@ def _desugared_body(fnode):
     new_body = [Tr().visit(copy.deepcopy(st)) for st in body]
     for st in new_body:
         ast.fix_missing_locations(st)
-    _DESUGARED[key] = new_body
+    _DESUGARED[key] = (fnode, new_body)
     return new_body
 
 
